@@ -32,3 +32,4 @@ def run(ctx, rep):
     rep.run(RF.rule_read_sites, ctx, rep, "R5", min_sites=4)
     rep.run(RF.rule_whole_file_writes, ctx, rep, "R6", min_sites=3)
     rep.run(RF.rule_item_state_defined_before_use, ctx, rep, "R7")
+    rep.run(RF.rule_memo_key_complete, ctx, rep, "R8")
